@@ -10,6 +10,16 @@ Invariant monitor with float64 linear algebra on MJWarp's own matrices (backward
     by the same residual against the very matrix and right-hand side the call received.
 Models are forests whose per-tree dof counts hit every block layout and its boundaries: compact (diagonal) blocks, scalar
 Cholesky (<=6, triangular), tiled dense Cholesky (<=64, incl. small branched trees), sparse LDL (>64), mixed in one model.
+Every residual is judged for the whole system AND for each tree's diagonal block on its own: the trees are decoupled systems
+that are factored independently, and the whole-system norm is dominated by the largest tree (a 1-dof block solved as y/M^2
+next to a 90-dof chain has a whole-system backward error inside the grey zone).
+A second case family ("mix") puts ALL layouts into one model: one or two sparse trees (> 64 dofs, random recursive trees /
+stars with armature, optionally free-rooted) + 1-3 compact diagonal blocks of 1..6 dofs (centred free bodies, axis-aligned
+slides / hinge / ball on a centred body, single-dof trees) + tiled trees (sometimes two of one size) + scalar triangular
+trees (sometimes of the same size as a compact block), with the sparse trees first / last / in the middle of the dof order,
+stepped with Euler, implicitfast, implicit and RK4, either by step() (fused factor_solve_i) or by step1()+step2() (factor_m,
+then solve_m on the stored factor), and in a quarter of the cases with a joint equality and the CG solver (solve_m on every
+gradient update).
 """
 
 import mujoco
@@ -23,7 +33,9 @@ RULE = (
   "case=(seed, tree specs): forest of 1-4 trees, each a chain / branched star / free-body+chain / ball-chain / centred free "
   "sphere (diagonal block) with dof counts drawn from {1,2,3,5,6,7,8,16,31,32,33,63,64,65,90}, random link geometry, "
   "armature, damping and a velocity actuator; 3 worlds with different random qpos/qvel; 2 random right-hand sides per "
-  "solve. Non-trivial: nv>=2 and all direct oracles evaluated; distinct by hash(xml, states)."
+  "solve. Family 'mix' (case=(seed, order, nbig, integrator)): 1-2 sparse trees (65..130 dofs, branched, armature) + 1-3 "
+  "compact diagonal blocks (1..6 dofs) + 0-3 tiled trees + 0-3 scalar trees in one model, sparse trees first/last/middle, "
+  "integrators Euler/implicitfast/implicit/RK4. Non-trivial: nv>=2 and all direct oracles evaluated; distinct by hash(xml, states)."
 )
 ASSUMPTIONS = [
   "float64 numpy linear algebra on the float32 matrices MJWarp itself stores (d.M CSR, the matrices passed to the "
@@ -31,6 +43,9 @@ ASSUMPTIONS = [
   "backward-error bound C*eps32 with C=24 (Cholesky/LDL backward error grows at most like n*eps; measured clean maximum is "
   "reported in worst_err_over_bound)",
   "positive definiteness is judged on the float64 eigenvalues of the float32 matrix: lambda_min > 0",
+  "M (and the implicit system matrices) couple a dof only with dofs of its own kinematic tree, so each tree's diagonal block is "
+  "an independent linear system; the per-block residual is judged only after verifying on the very matrix that the block has no "
+  "entry outside itself",
   "the implicit-integration system matrices are the ones MJWarp builds (their correctness is C27's subject); here only "
   "'the returned x solves the system that was passed' is decided",
 ]
@@ -40,6 +55,9 @@ EPS32 = float(np.finfo(np.float32).eps)
 C_BACK = 24.0
 SIZES_QUICK = (1, 2, 3, 5, 6, 7, 8, 31, 32, 33, 63, 64, 65, 90)
 SIZES_THOROUGH = (1, 2, 3, 4, 5, 6, 7, 8, 12, 16, 24, 31, 32, 33, 48, 63, 64, 65, 72, 90, 130)
+M_DENSE_MAX = 64  # trees above this many dofs use the sparse LDL layout (types.M_BLOCK_DENSE_MAX; layout_classes() reads the real one)
+RTREE_DEPTH = 9  # dof depth of the generated sparse random trees
+MIX_NV = {1: (96, 128), 2: (160, 192)}  # total nv of a 'mix' model by number of sparse trees (kernels specialise on nv)
 
 
 def _f(x):
@@ -50,15 +68,28 @@ def tree_xml(rng, kind, n, tid):
   """XML of one tree with exactly n dofs. Returns (xml, joint names)."""
   names = []
 
-  def joint(k, typ=None):
+  def joint(k, typ=None, axis=None, arm_always=False):
     typ = typ or ("hinge", "hinge", "slide")[int(rng.integers(3))]
     nm = f"t{tid}_j{k}"
-    names.append(nm)
-    ax = rng.normal(size=3)
-    ax /= np.linalg.norm(ax)
-    arm = f' armature="{rng.uniform(0.001, 0.2):.4g}"' if rng.random() < 0.5 else ""
+    if typ != "ball":
+      names.append(nm)  # scalar joints only: targets of actuators / joint equalities
+    if axis is None:
+      ax = rng.normal(size=3)
+      ax /= np.linalg.norm(ax)
+    else:
+      ax = np.asarray(axis, dtype=float)
+    arm = f' armature="{rng.uniform(0.001, 0.2):.4g}"' if (arm_always or rng.random() < 0.5) else ""
     dmp = f' damping="{rng.uniform(0.05, 2):.4g}"' if rng.random() < 0.5 else ""
-    return f'<joint name="{nm}" type="{typ}" axis="{_f(ax)}"{arm}{dmp}/>'
+    axs = "" if typ == "ball" else f' axis="{_f(ax)}"'
+    return f'<joint name="{nm}" type="{typ}"{axs}{arm}{dmp}/>'
+
+  def centred_geom():
+    # inertial frame = body frame (no offset, no rotation): MuJoCo marks such a root body "simple" and M gets a diagonal block
+    dens = f'density="{rng.uniform(150, 4000):.4g}"'
+    t = ("sphere", "box", "ellipsoid")[int(rng.integers(3))]
+    if t == "sphere":
+      return f'<geom type="sphere" size="{rng.uniform(0.05, 0.25):.3g}" {dens} contype="0" conaffinity="0"/>'
+    return f'<geom type="{t}" size="{_f(rng.uniform(0.04, 0.3, size=3))}" {dens} contype="0" conaffinity="0"/>'
 
   def geom():
     t = ("capsule", "box", "ellipsoid")[int(rng.integers(3))]
@@ -67,8 +98,78 @@ def tree_xml(rng, kind, n, tid):
     return f'<geom type="{t}" size="{_f(rng.uniform(0.03, 0.1, size=3))}" pos="{_f(rng.normal(size=3) * 0.05)}" contype="0" conaffinity="0"/>'
 
   base = f'pos="{_f([rng.normal() * 2, tid * 3.0, 1.5])}"'
-  if kind == "diag":  # centred sphere on a free joint: diagonal M block ("compact" layout), n must be 6
-    return f'<body {base}><freejoint name="t{tid}_free"/><geom type="sphere" size="{rng.uniform(0.05, 0.2):.3g}" contype="0" conaffinity="0"/></body>', names
+  if kind == "diag":  # centred aligned body on a free joint: diagonal M block ("compact" layout), n must be 6
+    q = rng.normal(size=4)
+    return f'<body {base} quat="{_f(q / np.linalg.norm(q))}"><freejoint name="t{tid}_free"/>{centred_geom()}</body>', names
+  if kind == "cjoint":
+    # decoupled dofs on one centred root body (axis-aligned slides, one aligned hinge or a ball): diagonal block of n = 1..6 dofs
+    eye = np.eye(3)[rng.permutation(3)]
+    recipe = {
+      1: (("s",), ("h",)),
+      2: (("s", "s"), ("s", "h")),
+      3: (("s", "s", "s"), ("b",)),
+      4: (("s", "s", "s", "h"), ("s", "b")),
+      5: (("s", "s", "b"),),
+      6: (("s", "s", "s", "b"),),
+    }[n]
+    recipe = recipe[int(rng.integers(len(recipe)))]
+    q = rng.normal(size=4)
+    out = [f'<body {base} quat="{_f(q / np.linalg.norm(q))}">']
+    ns = 0
+    for k, c in enumerate(recipe):
+      if c == "s":
+        out.append(joint(k, "slide", axis=eye[ns]))
+        ns += 1
+      elif c == "h":
+        out.append(joint(k, "hinge", axis=eye[int(rng.integers(3))]))
+      else:
+        out.append(joint(k, "ball"))
+    out += [centred_geom(), "</body>"]
+    return "".join(out), names
+  if kind in ("rtree", "frtree"):
+    # random recursive tree (every new link hangs off a random earlier link): branched, shallow, armature on every joint,
+    # so that blocks of > 64 dofs stay well conditioned in float32; "frtree" has a free joint at the root
+    # Trees of > 64 dofs get a dof depth of exactly RTREE_DEPTH (a spine first, then random parents that keep the depth):
+    # the sparse solve kernel is specialised on (nv, number of depth levels), a fixed depth keeps the set of compiled kernels small.
+    nodes = []  # (parent index, [joint xml], geom xml)
+    depth = []  # dofs on the path root..this link
+    cap = RTREE_DEPTH if n > M_DENSE_MAX else n
+    left = n
+    k = 0
+    if kind == "frtree":
+      nodes.append((-1, [f'<freejoint name="t{tid}_free"/>'], geom()))
+      depth.append(6)
+      left -= 6
+    while left > 0:
+      nj = int(min(left, 1 + (rng.random() < 0.2)))
+      if not nodes:
+        par = -1
+      elif n > M_DENSE_MAX and max(depth) < cap:
+        par = int(np.argmax(depth))  # spine
+      else:
+        ok = [i for i, dd in enumerate(depth) if dd < cap]
+        par = ok[int(rng.integers(len(ok)))]
+      nj = int(min(nj, cap - (depth[par] if par >= 0 else 0)))
+      nodes.append((par, [joint(k + i, arm_always=True) for i in range(nj)], geom()))
+      depth.append((depth[par] if par >= 0 else 0) + nj)
+      k += nj
+      left -= nj
+    kids = {}
+    for i, (par, _, _) in enumerate(nodes):
+      kids.setdefault(par, []).append(i)
+    out = []
+    stack = [(kids[-1][0], False)]  # exactly one root (node 0)
+    while stack:
+      i, done = stack.pop()
+      if done:
+        out.append("</body>")
+        continue
+      pos = base if i == 0 else f'pos="{_f(rng.normal(size=3) * 0.08 + [0.1, 0, 0])}"'
+      out += [f"<body {pos}>"] + nodes[i][1] + [nodes[i][2]]
+      stack.append((i, True))
+      for c in reversed(kids.get(i, [])):
+        stack.append((c, False))
+    return "".join(out), names
   if kind == "star":  # root joint + (n-1) single-joint children of the root: branched block, not triangular
     out = [f"<body {base}>", joint(0), geom()]
     for k in range(1, n):
@@ -104,19 +205,26 @@ def tree_xml(rng, kind, n, tid):
   return "".join(out), names
 
 
-def build_xml(rng, specs, integrator, timestep):
+def build_xml(rng, specs, integrator, timestep, cg=False):
   bodies = []
   acts = []
+  eqs = []
   for tid, (kind, n) in enumerate(specs):
     x, names = tree_xml(rng, kind, n, tid)
     bodies.append(x)
+    if cg and len(names) > 1 and len(eqs) < 2 and rng.random() < 0.6:
+      # a soft joint coupling inside one tree: gives the CG solver (which calls solve_m on every gradient update) something to do
+      a, b = (names[int(i)] for i in rng.choice(len(names), size=2, replace=False))
+      eqs.append(f'<joint joint1="{a}" joint2="{b}" polycoef="0 {rng.uniform(0.5, 1.5):.3g} 0 0 0" solref="0.05 1"/>')
     if names and rng.random() < 0.7:
       nm = names[int(rng.integers(len(names)))]
       acts.append(f'<velocity joint="{nm}" kv="{rng.uniform(0.5, 5):.3g}"/>')
       if rng.random() < 0.5 and len(names) > 1:
         acts.append(f'<general joint="{names[int(rng.integers(len(names)))]}" gaintype="affine" gainprm="2 0 -0.5" biastype="affine" biasprm="0 -1 -0.3"/>')
   act = f"<actuator>{''.join(acts)}</actuator>" if acts else ""
-  return f'<mujoco><option timestep="{timestep}" integrator="{integrator}"><flag contact="disable"/></option><worldbody>{"".join(bodies)}</worldbody>{act}</mujoco>'
+  eq = f"<equality>{''.join(eqs)}</equality>" if eqs else ""
+  sol = ' solver="CG" iterations="3" tolerance="0"' if cg else ""
+  return f'<mujoco><option timestep="{timestep}" integrator="{integrator}"{sol}><flag contact="disable"/></option><worldbody>{"".join(bodies)}</worldbody>{eq}{act}</mujoco>'
 
 
 def draw_specs(rng, sizes, force=None):
@@ -141,14 +249,85 @@ def draw_specs(rng, sizes, force=None):
   return specs
 
 
+MIX_INTEGRATORS = ("Euler", "implicitfast", "implicit", "RK4")
+
+
+def draw_mix_specs(rng, order, nbig=1):
+  """One model that holds EVERY block layout at once: >=1 sparse tree (> 64 dofs, branched + armature), >=1 compact diagonal
+  block, and usually tiled and scalar-triangular trees; `order` fixes where the sparse tree(s) sit among the others
+  (0 first, 1 last, 2 in the middle; with two sparse trees and order 2 a compact block lies between them)."""
+  big = []
+  small = []
+  for _ in range(int(rng.integers(1, 4))):  # compact diagonal blocks
+    r = rng.random()
+    if r < 0.35:
+      small.append(("diag", 6))
+    elif r < 0.6:
+      small.append(("chain", 1))  # single-dof tree: any joint, any geometry
+    else:
+      small.append(("cjoint", int(rng.integers(1, 7))))
+  for _ in range(int(rng.integers(0, 3))):  # tiled trees (7..64 dofs), sometimes twice the same size (several blocks per tile set)
+    n = int((7, 8, 12, 16, 31, 33)[int(rng.integers(6))])
+    small.append((("chain", "rtree", "free", "ball")[int(rng.integers(4))], n))
+    if rng.random() < 0.25:
+      small.append((("chain", "rtree")[int(rng.integers(2))], n))
+  for _ in range(int(rng.integers(0, 3))):  # scalar trees (<= 6 dofs): triangular, or branched (goes to the tile path)
+    n = int(rng.integers(2, 7))
+    kinds = ["chain"] + (["ball", "star"] if n >= 3 else []) + (["free"] if n == 6 else [])
+    small.append((kinds[int(rng.integers(len(kinds)))], n))
+  if rng.random() < 0.3:  # a compact and a triangular block of the SAME size share one scalar tile set (the kernel branches per block)
+    n = int(rng.integers(2, 7))
+    small.append(("diag", 6) if (n == 6 and rng.random() < 0.5) else ("cjoint", n))
+    small.append(("free", 6) if (n == 6 and rng.random() < 0.5) else ("chain", n))
+  # total nv is one of a few fixed values (the sparse solve, LU and constraint-solver kernels are compiled per nv): the first
+  # sparse tree takes whatever is left, so its size sweeps 65..~97 (a second one has 65 dofs)
+  targets = MIX_NV[nbig]
+  fixed = 65 * (nbig - 1)
+  while len(small) > 1 and sum(n for _, n in small) + fixed + 65 > targets[-1]:
+    small.pop(int(np.argmax([n for _, n in small])))  # never pops the last compact block: tiled trees are larger
+  nsmall = sum(n for _, n in small)
+  total = [t for t in targets if t - fixed - nsmall >= 65][0]
+  for b in range(nbig):
+    n = total - fixed - nsmall if b == 0 else 65
+    big.append((("rtree", "rtree", "frtree", "star")[int(rng.integers(4))], int(n)))
+  small = [small[i] for i in rng.permutation(len(small))]
+  if order == 0:
+    specs = big + small
+  elif order == 1:
+    specs = small + big
+  else:
+    cut = int(rng.integers(1, len(small))) if len(small) > 1 else int(rng.integers(2))
+    if len(big) > 1:
+      cut = min(cut, len(small) - 1)
+      ci = [i for i, (k, n) in enumerate(small) if k in ("diag", "cjoint") or n == 1][0]
+      small[cut], small[ci] = small[ci], small[cut]
+    specs = small[:cut] + big[:1] + small[cut:] + big[1:]
+  return specs
+
+
 def cases(tier, seed):
   sizes = SIZES_QUICK if tier == "quick" else SIZES_THOROUGH
   n = 56 if tier == "quick" else 700
   out = []
   for i in range(n):
     force = sizes[i % len(sizes)]
-    out.append({"id": f"f{seed}_{i}", "seed": seed * 100000 + i, "force": int(force), "integrator": ("Euler", "implicitfast", "implicit")[i % 3], "tier": tier, "weight": 1 + force // 30})
-  return out
+    out.append({"id": f"f{seed}_{i}", "seed": seed * 100000 + i, "force": int(force), "integrator": ("Euler", "implicitfast", "implicit")[i % 3], "split": i % 4 == 3, "tier": tier, "weight": 1 + force // 30})
+  nmix = 36 if tier == "quick" else 300
+  mix = []
+  for i in range(nmix):
+    # (order, integrator) walks all 12 combinations
+    nbig = 2 if i % 12 in (2, 3, 10) else 1  # two sparse trees: once per order in every 12 cases
+    mix.append({"id": f"x{seed}_{i}", "seed": seed * 100000 + 50000 + i, "family": "mix", "order": i % 3, "nbig": nbig, "integrator": MIX_INTEGRATORS[(i // 3) % 4], "split": (i + i // 12) % 2 == 1, "cg": i % 4 == 1, "tier": tier, "weight": 3 + 2 * nbig})
+  # interleave so that a budget cut-off drops both families evenly
+  res = []
+  step = max(1, len(out) // max(1, len(mix)))
+  mi = 0
+  for i, c in enumerate(out):
+    if i % step == 0 and mi < len(mix):
+      res.append(mix[mi])
+      mi += 1
+    res.append(c)
+  return res + mix[mi:]
 
 
 def layout_classes(mjm):
@@ -188,17 +367,50 @@ def backward_error(A, x, b):
   return float(r / den) if den > 0 else 0.0
 
 
-def judge_solve(rec, name, A, x, b, ctx, data=None):
+def tree_blocks(mjm):
+  """[(dofadr, dofnum, layout class)] of the diagonal blocks of M (one per kinematic tree)."""
+  cls = layout_classes(mjm)
+  adr = [(int(a), int(n)) for a, n in zip(mjm.tree_dofadr, mjm.tree_dofnum) if n > 0]
+  return [(a, n, c) for (a, n), (c, _) in zip(adr, cls)]
+
+
+def judge_solve(rec, name, A, x, b, ctx, data=None, blocks=None):
+  """Backward error of the whole system and, because the trees are decoupled systems that are factored independently, of
+  every diagonal block on its own (the whole-system norm is dominated by the largest tree and hides a wrong small block)."""
   rec.check()
   be = backward_error(A, x, b)
   ratio = be / (C_BACK * EPS32)
   rec.worst(name, ratio)
+  ok = True
   if ratio > 30:
     rec.viol(name, f"{name}: backward error ||Ax-b||/(||A||||x||+||b||) = {be:.3g} > 30 x {C_BACK:g} eps32 {ctx}", n=A.shape[0], x=np.asarray(x)[:6], **(data or {}))
-    return False
-  if ratio > 1:
+    ok = False
+  elif ratio > 1:
     rec.inconcl(f"{name}: backward error in grey zone")
-  return True
+  if not blocks or len(blocks) < 2:
+    return ok
+  x = np.asarray(x, dtype=np.float64)
+  b = np.asarray(b, dtype=np.float64)
+  for adr, num, cls in blocks:
+    s = slice(adr, adr + num)
+    off = A[s].copy()
+    off[:, s] = 0
+    if np.any(off != 0):  # not a decoupled block of this matrix: only the whole-system residual applies
+      rec.count("block_coupled_to_other_dofs")
+      continue
+    rec.check()
+    bek = backward_error(A[s, s], x[s], b[s])
+    rk = bek / (C_BACK * EPS32)
+    nm = f"{name}:block[{cls}]"
+    rec.worst(nm, rk)
+    rec.cover("block_residuals:" + cls, 1)
+    if rk > 30:
+      rec.viol(nm, f"{nm}: dofs {adr}..{adr + num - 1} form a decoupled {cls} block but its own backward error is {bek:.3g} > 30 x {C_BACK:g} eps32 "
+               f"(whole-system backward error {be:.3g}) {ctx}", n=num, dofadr=adr, x=x[s][:6], b=b[s][:6], diagA=np.diag(A[s, s])[:6], **(data or {}))
+      ok = False
+    elif rk > 1:
+      rec.inconcl(f"{nm}: backward error in grey zone")
+  return ok
 
 
 class Hooks:
@@ -253,8 +465,12 @@ def run_case(case):
   rec = core.Rec(case)
   rng = np.random.default_rng(case["seed"])
   sizes = SIZES_QUICK if case.get("tier", "quick") == "quick" else SIZES_THOROUGH
-  specs = draw_specs(rng, sizes, case["force"])
-  xml = build_xml(rng, specs, case["integrator"], 0.00390625)
+  mix = case.get("family") == "mix"
+  if mix:
+    specs = draw_mix_specs(rng, case["order"], case.get("nbig", 1))
+  else:
+    specs = draw_specs(rng, sizes, case["force"])
+  xml = build_xml(rng, specs, case["integrator"], 0.00390625, cg=bool(case.get("cg")))
   try:
     mjm = mujoco.MjModel.from_xml_string(xml)
   except Exception as e:
@@ -284,6 +500,7 @@ def run_case(case):
     states.append({"qpos": qpos.astype(np.float32), "qvel": (rng.normal(size=nv) * 0.5).astype(np.float32), "ctrl": rng.normal(size=mjm.nu).astype(np.float32)})
   d = mw.make_data(mjm, m, states, njmax=16, nconmax=1)
   lay = layout_classes(mjm)
+  blocks = tree_blocks(mjm)
   # cross-check the layout MJWarp chose against the independent classification
   adr = np.array(m.qLD_block_adr.numpy() if hasattr(m.qLD_block_adr, "numpy") else m.qLD_block_adr)
   for (cls, num), ta in zip(lay, [a for a, n_ in zip(mjm.tree_dofadr, mjm.tree_dofnum) if n_ > 0]):
@@ -335,11 +552,11 @@ def run_case(case):
       rec.viol("M_not_positive_definite", f"smallest eigenvalue {ev[0]:.3g} (largest {ev[-1]:.3g}) world {w}", trees=lay)
     rec.cover("cond_log10_max", [str(int(np.log10(max(1.0, ev[-1] / max(ev[0], 1e-300)))))])
     for r in range(2):
-      judge_solve(rec, "solve_m", Md, xs[r][w], B[r][w], f"world {w} rhs {r} trees {lay}")
+      judge_solve(rec, "solve_m", Md, xs[r][w], B[r][w], f"world {w} rhs {r} trees {lay}", blocks=blocks)
     for (A_csr, x), nm in zip(fs, ("factor_solve_i[M]", "factor_solve_i[M+diag]")):
       if not np.array_equal(A_csr, (Mcsr, Mmod)[nm.endswith("diag]")]):
         rec.viol("factor_solve_i:modifies_input_matrix", "factor_solve_i changed its input matrix M")
-      judge_solve(rec, nm, mw.dense_M(mjm, A_csr[w]), x[w], B[0][w], f"world {w} trees {lay}")
+      judge_solve(rec, nm, mw.dense_M(mjm, A_csr[w]), x[w], B[0][w], f"world {w} trees {lay}", blocks=blocks)
     # mul_m forward error
     rec.check()
     ref = Md @ v[w].astype(np.float64)
@@ -354,10 +571,24 @@ def run_case(case):
   # ---- pipeline calls: one real step with interception (constraint-free: solver is a copy)
   with Hooks() as hk:
     d2 = mw.make_data(mjm, m, states, njmax=16, nconmax=1)
-    mjw.step(m, d2)
+    if case.get("split"):
+      # step1 factors M with factor_m, step2 only back-substitutes (solve_m) on the stored factor
+      mjw.step1(m, d2)
+      mjw.step2(m, d2)
+    else:
+      mjw.step(m, d2)
   seen = set()
+  nsolve_m = sum(1 for c in hk.calls if c[0] == "solve_m")
+  if case.get("cg") and mjm.neq and nsolve_m > (1 if case.get("split") else 0):
+    rec.cover("pipeline_calls:solve_m[M]:from_CG_solver", 1)
+  if case.get("split") and nsolve_m:
+    rec.cover("pipeline_calls:solve_m[M]:from_step2", 1)
+  per_kind = {}
   for kind, A, y, x, is_M in hk.calls:
     tag = kind + ("[M]" if is_M else "[system]")
+    per_kind[tag] = per_kind.get(tag, 0) + 1
+    if per_kind[tag] > 8:
+      continue
     seen.add(tag)
     for w in range(nworld):
       Ad = dense_D(mjm, A[w]) if kind == "factor_solve_lu" else mw.dense_M(mjm, A[w])
@@ -368,7 +599,7 @@ def run_case(case):
           # M - h*qDeriv indefinite; nothing to decide about the solver here
           rec.count("pipeline_system_not_spd")
           continue
-      judge_solve(rec, "pipeline:" + tag, Ad, x[w][:nv], y[w][:nv], f"world {w} integrator {case['integrator']} trees {lay}")
+      judge_solve(rec, "pipeline:" + tag, Ad, x[w][:nv], y[w][:nv], f"world {w} integrator {case['integrator']} trees {lay}", blocks=blocks)
       if not is_M and w == 0:
         dev = float(np.abs(Ad - mw.dense_M(mjm, Mcsr[w])).max())
         if dev > 1e-6:
@@ -381,6 +612,32 @@ def run_case(case):
     rec.cover(f"layout_size:{cls}:{num}", 1)
   if len({c for c, _ in lay}) > 1:
     rec.cover("mixed_layouts_in_one_model", 1)
+  # which layouts share one model, and in which order of the trees (the kernels of one layout walk ALL dofs / all blocks of a
+  # size and must skip the others by their qLD_block_adr sentinel)
+  pos = {c: [i for i, (cc, _) in enumerate(lay) if cc == c] for c in ("compact", "scalar", "tile", "tile_branched", "sparse")}
+  if pos["sparse"]:
+    for other in ("compact", "scalar", "tile", "tile_branched"):
+      if pos[other]:
+        rec.cover(f"sparse+{other}_in_one_model", 1)
+        if min(pos[other]) < min(pos["sparse"]):
+          rec.cover(f"order:{other}_before_sparse", 1)
+        if max(pos[other]) > max(pos["sparse"]):
+          rec.cover(f"order:{other}_after_sparse", 1)
+        if len(pos["sparse"]) > 1 and any(min(pos["sparse"]) < i < max(pos["sparse"]) for i in pos[other]):
+          rec.cover(f"order:{other}_between_sparse_trees", 1)
+    if len(pos["sparse"]) > 1:
+      rec.cover("several_sparse_trees_in_one_model", 1)
+    if pos["compact"] and pos["scalar"] and (pos["tile"] or pos["tile_branched"]):
+      rec.cover("all_layouts_in_one_model", 1)
+  csz = {n for c, n in lay if c == "compact"}
+  if csz & {n for c, n in lay if c == "scalar"}:
+    rec.cover("same_size_compact_and_scalar_blocks_in_one_model", 1)
+  tsz = [n for c, n in lay if c in ("tile", "tile_branched")]
+  if len(tsz) != len(set(tsz)):
+    rec.cover("several_blocks_in_one_tile_set", 1)
+  if mix:
+    rec.cover("mix_family_cases", 1)
+    rec.cover(f"mix_family:order{case['order']}:{case['integrator']}", 1)
   rec.cover("integrator:" + case["integrator"], 1)
   if nv >= 2:
     rec.nontrivial(xml, *[s["qpos"] for s in states])
@@ -391,6 +648,13 @@ def run_case(case):
 def requirements(agg, tier):
   unmet = []
   cov = agg["cover"]
+  import os
+
+  if os.environ.get("C21_DUMP_COVER"):  # development aid: look at the counters of a --no-evidence run
+    import json
+
+    with open(os.environ["C21_DUMP_COVER"], "w") as f:
+      json.dump({k: (sorted(v) if isinstance(v, (set, list)) else v) for k, v in cov.items()}, f, indent=1, sort_keys=True)
   for cls in ("compact", "scalar", "tile", "tile_branched", "sparse"):
     if cov.get("layout:" + cls, 0) < 3:
       unmet.append(f"block layout class observed fewer than 3 times: {cls}")
@@ -404,6 +668,31 @@ def requirements(agg, tier):
   for k in ("pipeline_system_matrix_differs_from_M:factor_solve_i", "pipeline_system_matrix_differs_from_M:factor_solve_lu", "mixed_layouts_in_one_model"):
     if not cov.get(k):
       unmet.append(f"never observed: {k}")
+  # the mixed-layout family: every layout next to a sparse tree, on both sides of it, and its blocks judged on their own
+  need = 3 if tier == "quick" else 10
+  for other in ("compact", "scalar", "tile", "tile_branched"):
+    for k in (f"sparse+{other}_in_one_model", f"order:{other}_before_sparse", f"order:{other}_after_sparse"):
+      if cov.get(k, 0) < need:
+        unmet.append(f"mixed-layout family observed fewer than {need} times: {k}")
+  for k in ("all_layouts_in_one_model", "several_sparse_trees_in_one_model", "order:compact_between_sparse_trees", "same_size_compact_and_scalar_blocks_in_one_model", "several_blocks_in_one_tile_set"):
+    if not cov.get(k):
+      unmet.append(f"never observed: {k}")
+  for cls in ("compact", "scalar", "tile", "tile_branched", "sparse"):
+    if cov.get("block_residuals:" + cls, 0) < 30:
+      unmet.append(f"fewer than 30 per-block residuals judged for layout {cls}")
+  for n in (1, 2, 3, 6):
+    if not cov.get(f"layout_size:compact:{n}"):
+      unmet.append(f"compact diagonal block of {n} dofs never generated")
+  for integ in MIX_INTEGRATORS:
+    if not any(cov.get(f"mix_family:order{o}:{integ}") for o in range(3)):
+      unmet.append(f"mixed-layout family never stepped with integrator {integ}")
+  for k in ("pipeline_calls:solve_m[M]:from_step2", "pipeline_calls:solve_m[M]:from_CG_solver"):
+    if cov.get(k, 0) < 3:
+      unmet.append(f"pipeline call intercepted in fewer than 3 cases: {k}")
+  # a residual between 1x and 30x the bound is not decided; the clean tree sits ~20x below 1, so more than a stray
+  # grey-zone case means something this monitor cannot call either way
+  if agg["inconclusive"] > max(1, 0.02 * agg["evaluations"]):
+    unmet.append(f"{agg['inconclusive']} cases had a backward error in the grey zone (1x..30x the bound)")
   if agg["distinct"] < 20:
     unmet.append("fewer than 20 distinct non-trivial cases")
   return unmet
